@@ -281,3 +281,53 @@ def hazards(pattern: str) -> Tuple[List[str], int]:
 
     walk(parse(pattern), False)
     return exp, degree[0]
+
+
+def is_nonspace_run(pattern: str) -> bool:
+    """The pattern is one maximal run of non-whitespace characters: \\S+ , [^\\s]+ , [^ ]+ (possibly in one group)."""
+    try:
+        items = _items(parse(pattern))
+    except re.error:
+        return False
+    while len(items) == 1 and items[0][0] is sre_c.SUBPATTERN:
+        items = _items(items[0][1][3])
+    if len(items) != 1 or items[0][0] not in (sre_c.MAX_REPEAT,):
+        return False
+    lo, hi, body = items[0][1]
+    if lo != 1 or hi != MAXREPEAT:
+        return False
+    b = _items(body)
+    if len(b) != 1 or b[0][0] is not sre_c.IN:
+        if len(b) == 1 and b[0][0] is sre_c.NOT_LITERAL and chr(b[0][1]) == " ":
+            return True
+        return False
+    cls = list(b[0][1])
+    if cls == [(sre_c.CATEGORY, sre_c.CATEGORY_NOT_SPACE)]:
+        return True
+    if cls and cls[0][0] is sre_c.NEGATE:
+        rest = cls[1:]
+        if rest == [(sre_c.CATEGORY, sre_c.CATEGORY_SPACE)] or rest == [(sre_c.LITERAL, ord(" "))]:
+            return True
+    return False
+
+
+def is_space_run(pattern: str) -> bool:
+    """The pattern matches only runs of whitespace: \\s+ , ' +' , [ \\t]+ ."""
+    try:
+        items = _items(parse(pattern))
+    except re.error:
+        return False
+    if len(items) != 1 or items[0][0] is not sre_c.MAX_REPEAT:
+        return False
+    lo, hi, body = items[0][1]
+    if lo != 1 or hi != MAXREPEAT:
+        return False
+    b = _items(body)
+    if len(b) != 1:
+        return False
+    op, av = b[0]
+    if op is sre_c.LITERAL:
+        return chr(av).isspace()
+    if op is sre_c.IN:
+        return all((o is sre_c.CATEGORY and a is sre_c.CATEGORY_SPACE) or (o is sre_c.LITERAL and chr(a).isspace()) for o, a in av)
+    return False
